@@ -1,20 +1,45 @@
 use crate::common::Prop;
 
 pub mod c01;
+#[cfg(not(feature = "tk"))]
 pub mod c02;
+#[cfg(not(feature = "tk"))]
 pub mod c03;
+#[cfg(not(feature = "tk"))]
 pub mod c04;
+#[cfg(not(feature = "tk"))]
 pub mod c07;
+#[cfg(not(feature = "tk"))]
 pub mod c08;
+#[cfg(not(feature = "tk"))]
 pub mod c09;
+#[cfg(not(feature = "tk"))]
 pub mod c10;
+#[cfg(not(feature = "tk"))]
 pub mod c11;
+#[cfg(not(feature = "tk"))]
 pub mod c12;
+#[cfg(not(feature = "tk"))]
 pub mod c16;
+#[cfg(not(feature = "tk"))]
 pub mod c17;
+#[cfg(not(feature = "tk"))]
 pub mod c19;
+#[cfg(not(feature = "tk"))]
 pub mod c20;
+#[cfg(feature = "tk")]
+pub mod tk;
 
+#[cfg(not(feature = "tk"))]
 pub fn all() -> Vec<Box<dyn Prop>> {
-    vec![Box::new(c01::C01), Box::new(c02::C02), Box::new(c03::C03), Box::new(c04::C04), Box::new(c07::C07), Box::new(c08::C08), Box::new(c09::C09), Box::new(c10::C10), Box::new(c11::C11), Box::new(c12::C12), Box::new(c16::C16), Box::new(c17::C17), Box::new(c19::C19), Box::new(c20::C20)]
+    vec![
+        Box::new(c01::C01), Box::new(c02::C02), Box::new(c03::C03), Box::new(c04::C04), Box::new(c07::C07), Box::new(c08::C08), Box::new(c09::C09),
+        Box::new(c10::C10), Box::new(c11::C11), Box::new(c12::C12), Box::new(c16::C16), Box::new(c17::C17), Box::new(c19::C19), Box::new(c20::C20),
+    ]
+}
+
+/// The tokio twin (built in /verif/tk): the same properties on the async runtime.
+#[cfg(feature = "tk")]
+pub fn all() -> Vec<Box<dyn Prop>> {
+    vec![Box::new(tk::C01T), Box::new(tk::C02T), Box::new(tk::C20T)]
 }
